@@ -207,6 +207,26 @@ pub struct LinkState {
     pub blocked: bool,
     /// Log frame bytes (up to this many bytes verbatim).
     pub verbatim: usize,
+    /// Fault to inject when the given frame number is about to be emitted: (frame number, kind).
+    /// Kinds: "sink_err", "stream_err", "stream_end", "stall".
+    pub fault_at: Option<(u64, &'static str)>,
+    /// A fault has been injected on this direction.
+    pub faulted: bool,
+    /// The sending endpoint dropped its sink half.
+    pub sender_gone: bool,
+    /// The receiving endpoint dropped its stream half.
+    pub receiver_gone: bool,
+    /// Opposite direction (for faults that affect both directions).
+    pub other: Option<std::sync::Weak<Mutex<LinkState>>>,
+}
+
+impl LinkState {
+    fn clear_in_flight(&mut self, dir: u64) {
+        if !self.out.is_empty() {
+            self.out.clear();
+            tr(json!({"ev": "wire_drop", "dir": dir}));
+        }
+    }
 }
 
 /// One direction of the harness-owned transport. `dir`: 1 = A->B, 2 = B->A.
@@ -225,7 +245,7 @@ impl Sink<Bytes> for SinkHalf {
     type Error = io::Error;
     fn poll_ready(self: Pin<&mut Self>, cx: &mut Context<'_>) -> Poll<Result<(), Self::Error>> {
         let mut st = self.0.0.lock().unwrap();
-        if st.sink_err {
+        if st.sink_err || st.receiver_gone {
             return Poll::Ready(Err(io::Error::new(io::ErrorKind::BrokenPipe, "injected sink error")));
         }
         if st.blocked {
@@ -236,8 +256,42 @@ impl Sink<Bytes> for SinkHalf {
     }
     fn start_send(self: Pin<&mut Self>, item: Bytes) -> Result<(), Self::Error> {
         let mut st = self.0.0.lock().unwrap();
-        if st.sink_err {
+        if st.sink_err || st.receiver_gone {
             return Err(io::Error::new(io::ErrorKind::BrokenPipe, "injected sink error"));
+        }
+        if let Some((at, kind)) = st.fault_at {
+            if st.emitted + 1 >= at {
+                st.fault_at = None;
+                st.faulted = true;
+                tr(json!({"ev": "fault", "kind": kind, "dir": self.0.1, "at": at}));
+                match kind {
+                    "sink_err" => {
+                        st.sink_err = true;
+                        st.clear_in_flight(self.0.1);
+                        return Err(io::Error::new(io::ErrorKind::BrokenPipe, "injected sink error"));
+                    }
+                    "stream_err" => {
+                        st.clear_in_flight(self.0.1);
+                        st.stream_err = true;
+                        st.stalled = true;
+                    }
+                    "stream_end" => {
+                        st.clear_in_flight(self.0.1);
+                        st.stream_end = true;
+                        st.stalled = true;
+                    }
+                    "stall_both" => {
+                        st.stalled = true;
+                        if let Some(o) = st.other.as_ref().and_then(|w| w.upgrade()) {
+                            o.lock().unwrap().stalled = true;
+                        }
+                    }
+                    _ => st.stalled = true,
+                }
+                if let Some(w) = st.rx_waker.take() {
+                    w.wake();
+                }
+            }
         }
         st.emitted += 1;
         tr(json!({"ev": "wire_emit", "dir": self.0.1, "b": frame_json(&item, st.verbatim), "len": item.len(), "n": st.emitted}));
@@ -268,12 +322,43 @@ impl Stream for StreamHalf {
                 Poll::Ready(Some(Err(io::Error::new(io::ErrorKind::ConnectionReset, "injected stream error"))))
             }
             None if st.stream_end => Poll::Ready(None),
+            // the sender closed its half: end of stream once everything in flight has been delivered
+            None if st.sender_gone && st.out.is_empty() && !st.stalled => Poll::Ready(None),
             None => {
                 st.rx_waker = Some(cx.waker().clone());
                 Poll::Pending
             }
         }
     }
+}
+
+impl Drop for SinkHalf {
+    fn drop(&mut self) {
+        let mut st = self.0.0.lock().unwrap();
+        st.sender_gone = true;
+        if let Some(w) = st.rx_waker.take() {
+            w.wake();
+        }
+    }
+}
+
+impl Drop for StreamHalf {
+    fn drop(&mut self) {
+        let mut st = self.0.0.lock().unwrap();
+        st.receiver_gone = true;
+        if let Some(w) = st.tx_waker.take() {
+            w.wake();
+        }
+    }
+}
+
+/// Creates both directions of a transport; each knows the other (for faults hitting both).
+pub fn link_pair() -> (Link, Link) {
+    let ab = Link::new(1);
+    let ba = Link::new(2);
+    ab.0.lock().unwrap().other = Some(Arc::downgrade(&ba.0));
+    ba.0.lock().unwrap().other = Some(Arc::downgrade(&ab.0));
+    (ab, ba)
 }
 
 impl Link {
